@@ -36,6 +36,10 @@ var c19Seeds = []string{
 	"##!> include ok -- @\n", "##!> include nosuchfile -- x y z\n", "##!> include-except ok b -- a\n", "##!> include a --\n", "##!> include a -- \n", "##!> include a -- \"\"\n", "##!> include-except a b -- \"\" \"\" x\n", "##!> include ok -- a b c d e\n",
 	// a replacement that is a single quote character, with an entry that ends in the key; include files that consist of prefix / suffix lines only
 	"##!> include ok -- e \"\n", "##!> include a -- a \"\n", "##!> include-except ok b -- e \" x \"\"\n", "##!^ \\b\n", "##! c\n##!$ x\n", "##!> define d x\n##!^ {{d}}\n", "##!^ a\n##!$ b\n\n",
+	// empty lines that reach a processor by another way than the parser's line loop (an empty block nested in a cmdline
+	// block, an entry that a replacement empties), markers whose name is white space outside ASCII
+	"##!> cmdline unix\nls\n##!> cmdline windows\n##!<\n##!<\n", "##!> cmdline unix\n##!> cmdline unix\n##!<\n##!<\n", "##!> cmdline unix\n##!> assemble\n##!<\nls\n##!<\n", "##!> cmdline unix\n##!> include marks -- @ \"\"\n##!<\n", "##!> cmdline windows\nx\n##!> include-except marks ok -- ~ \"\" @ \"\"\n##!<\n",
+	"##!> assemble\n##!> include marks -- @ \"\" ~ \"\"\n##!=>\nb\n##!<\n", "##!=> \x0b\n", "##!=< \x0b\n", "a\n##!=< \u00a0\n##!=> \u00a0\n", "##!=> \u0085 \n", "##!> assemble\n  a\n  ##!=< \x0b \x0b\n  ##!=> \u2003\n##!<\n", "##!=>\t\x0c\n", "##!=< \x1c\n##!=> \x1c\n",
 	// include cycles with a fan-out of two and more
 	"##!> include fz\n##!> include fz\n", "##!> include twice\n", "##!> include ping\n##!> include pong\n##!> include-except ping pong\n", "x\n##!> include fz -- a b\n##!> include-except fz ok\n##!> include fz\n",
 	// fragments of a byte order mark at the start of the input
@@ -89,6 +93,7 @@ func c19Check(env *core.Env, cc core.Case) core.Verdict {
 		"regex-assembly/include/ping.ra":  "pingword\n##!> include pong\n",
 		"regex-assembly/include/pong.ra":  "##!> include ping\npongword\n",
 		"regex-assembly/include/twice.ra": "##!> include twice\n##!> include twice\nw\n",
+		"regex-assembly/include/marks.ra": "@\n~\nls@\nid~\n~@\n",
 	}
 	type inv struct {
 		args  []string
